@@ -240,7 +240,7 @@ func (p c05in) runGrammar(r *rand.Rand, idx int) (o Outcome) {
 
 func init() { register(c05in{}) }
 
-func (c05in) ID() string { return "C05" }
+func (c05in) ID() string                 { return "C05" }
 func (p c05in) NumCases(tier string) int { return p.matrixCases(tier) + p.grammarCases(tier) }
 func (c05in) Rule() string {
 	return "three legs. (1) matrices: unpack(pack(m)) == m for every matrix with <=3x3 cells over {0,1,2} and <=2x5 over {0,1} (exhaustive), plus batches of 1000 random matrices up to 8x10 with density 5-90% and negative/large entries; (2) grammars built in-process: for every (state, symbol) the documented lookup through ActionTable/OffsetTable/CheckTable/ActionDef/GoToDef equals GTable[state][symbol]; (3) generated code (pipeline leg, see counters gen:*): packed and -u parsers of the same grammar have identical effective tables and identical verdict/reductions/value on every input; non-trivial = matrix batch, packed grammar with >= 4 states, or grammar whose two generated parsers were both run; distinct by matrix batch / grammar text"
